@@ -22,6 +22,7 @@ EXPLANATION = (
     "handled error and the normal path does not; (R3) dispatcher shutdown sits in a finally guarded by 'top-level call', and every internal run/map "
     "call hands down a parent span; (R4) the node span id is published to the executor closure with no suspension point in between, in both runners; "
     "(R5) nothing observable happens before input validation; (R6) a step's gather waits for all siblings. R5 also requires that every option check run() applies up front to a parameter map() forwards unchanged is applied by map() itself before the map-level span is opened; R6 extends to every gather of the runners: it collects exceptions, or no explicit raise escapes from the gathered coroutines (followed into sibling closures)."
+    " R2 also requires that every builder of a RunEnd event decides the status by the presence of the handed-in exception (the parameter itself, or 'is None' tests on it, looked through single-assignment locals) — not by its message or anything else derived from it."
 )
 NOT_DECIDED = "Timestamps and payload fields of events beyond span ids/status; that processors see events in wall-clock order across concurrently running siblings; paused runs (emit no RunEnd by design)."
 
@@ -336,15 +337,24 @@ def run(ctx) -> None:
             if not isinstance(st, ast.IfExp):
                 why = f"status is not chosen by a conditional on the handed-in exception ('{src(st)[:50]}')"
             else:
-                for a in test_atoms(st.test):
+                def atoms_of(e, depth=0):
+                    out_ = []
+                    for a_ in test_atoms(look(e)):
+                        if isinstance(a_, ast.Name) and a_.id in defs and depth < 4:
+                            out_ += atoms_of(a_, depth + 1)
+                        else:
+                            out_.append(a_)
+                    return out_
+
+                for a in atoms_of(st.test):
                     subj = a.left if isinstance(a, ast.Compare) and len(a.ops) == 1 and isinstance(a.ops[0], (ast.Is, ast.IsNot)) and isinstance(a.comparators[0], ast.Constant) and a.comparators[0].value is None else a
                     subj = look(subj)
                     if not (isinstance(subj, ast.Name) and subj.id in f.param_names):
                         why = f"status is decided by '{src(subj)[:50]}', a value derived from the exception rather than its presence: a failure with an empty message is reported as completed"
                         break
                 if why is None:
-                    pname = next((look(x).id for x in ast.walk(st.test) if isinstance(look(x), ast.Name) and look(x).id in f.param_names), None)
-                    present = eval_test(st.test, {pname: True, f"{pname} is None": False, f"{pname} is not None": True})
+                    pname = next((x.id for a_ in atoms_of(st.test) for x in ast.walk(a_) if isinstance(x, ast.Name) and x.id in f.param_names), None)
+                    present = eval_test(st.test, {pname: True, f"{pname} is None": False, f"{pname} is not None": True}, defs)
                     chosen = st.body if present else st.orelse
                     if present is None or "fail" not in src(chosen).lower():
                         why = f"with an exception present the status is '{src(chosen)[:40]}'"
@@ -692,4 +702,8 @@ VARIANTS = [
     Variant("gather-no-return-exceptions", AS, replace_once("results = await asyncio.gather(*tasks, return_exceptions=True)", "results = await asyncio.gather(*tasks)"), {"C12.R6"}),
     Variant("twin-rename-local-span", SS, lambda s: s.replace("node_span_id", "nspan"), set()),
     Variant("twin-extract-emit-end", SS, replace_once("                    dispatcher.emit(build_node_end_event(run_id, node_span_id, run_span_id, node, graph, duration_ms))\n\n            except BaseException as e:", "                    end_evt = build_node_end_event(run_id, node_span_id, run_span_id, node, graph, duration_ms)\n                    dispatcher.emit(end_evt)\n\n            except BaseException as e:"), set()),
+    Variant("status-from-message", "src/hypergraph/runners/sync/runner.py", replace_once('            status="failed" if error else "completed",', '            status="failed" if str(error or "") else "completed",'), {"C12.R2"}),
+    Variant("status-inverted", "src/hypergraph/runners/async_/runner.py", replace_once('            status="failed" if error else "completed",', '            status="failed" if error is None else "completed",'), {"C12.R2"}),
+    Variant("twin-status-is-not-none", "src/hypergraph/runners/sync/runner.py", replace_once('            status="failed" if error else "completed",', '            status="completed" if error is None else "failed",'), set()),
+    Variant("twin-status-local", "src/hypergraph/runners/_shared/event_helpers.py", replace_once("    return RunEndEvent(\n        run_id=run_id,\n        span_id=span_id,\n        parent_span_id=parent_span_id,\n        graph_name=graph.name,\n        status=RunStatus.FAILED if error else RunStatus.COMPLETED,", "    failed = error is not None\n    return RunEndEvent(\n        run_id=run_id,\n        span_id=span_id,\n        parent_span_id=parent_span_id,\n        graph_name=graph.name,\n        status=RunStatus.FAILED if failed else RunStatus.COMPLETED,"), set()),
 ]
